@@ -434,10 +434,11 @@ for _p in ():
 
 # ------------------------------------------------------------------ translation tie (Rust AST regenerated by /verif/translator)
 CODE_TIE = {'C05': ['Client', 'Now'], 'C06': ['Client', 'Now'], 'C14': ['Client', 'Now', 'Errors'],
-            'C01': ['Client', 'Updater', 'Extract', 'Drift', 'Poller'],
-            'C07': ['Extract'], 'C10': ['Extract', 'Leap'], 'C08': ['Updater'], 'C09': ['Updater'], 'C19': ['Drift'],
-            'C02': ['Seqlock'], 'C03': ['Seqlock'], 'C04': ['Seqlock', 'Header'], 'C11': ['Seqlock'], 'C18': ['Seqlock'],
-            'C16': ['Header', 'Errors'], 'C17': ['Header', 'Errors'], 'C12': ['Poller', 'Now'], 'C13': ['Poller']}
+            'C01': ['Client', 'Updater', 'Extract', 'Drift', 'Poller', 'Dispatch'],
+            'C07': ['Extract'], 'C10': ['Extract', 'Leap'], 'C08': ['Updater', 'Dispatch'], 'C09': ['Updater', 'Dispatch'], 'C19': ['Drift'],
+            'C02': ['Seqlock'], 'C03': ['Seqlock'], 'C04': ['Seqlock', 'Header', 'WriterNew'], 'C11': ['Seqlock'], 'C18': ['Seqlock'],
+            'C16': ['Header', 'WriterNew', 'Errors'], 'C17': ['Header', 'Errors'], 'C12': ['Poller', 'Now'], 'C13': ['Poller', 'Dispatch'],
+            'C15': ['Threads', 'Workers']}
 _TIE_WHAT = {'Client': 'ClockErrorBound::compute_bound_at = computeBoundAt', 'Leap': 'ChronyClockStatus::from(u16) = leapClass',
              'Extract': 'extract_bound_from_tracking = (boundF, classify)', 'Updater': 'ShmUpdater::{new, process_clock_update, process_missing_clock_update, write_clock_error_bound} = Updater.{new, step, record}',
              'Drift': 'the ppm->ppb conversion in main = driftPpb',
@@ -446,6 +447,10 @@ _TIE_WHAT = {'Client': 'ClockErrorBound::compute_bound_at = computeBoundAt', 'Le
              'Header': 'ShmHeader::{is_valid, read} = readHeader (order of checks and error kinds), ShmReader::new (FdGuard, MmapGuard, size check) = readerOpenLim for every file state, ShmWriter::segment_size() = 72',
              'Poller': 'one iteration of run_clock_error_bound_poller with the real ClockErrorBoundPoller (get_tracking, is_within_grace_period, get_phc_error_bound_from_path) = pollTrace / pollStep for all inputs (order of clock read, query, Instant reads, sysfs read, send, wait; the message sent), Default = Poller.init, is_within_grace_period = withinGrace',
              'Now': 'ClockErrorBound::now reads CLOCK_REALTIME (0) then CLOCK_MONOTONIC_COARSE (6), returns an Err of either read, and is compute_bound_at of exactly those two readings',
+             'Dispatch': 'shm_writer::process_messages for ALL message lists = Updater.run over the mapped messages (data / missing-in-grace / missing; other messages ignored; ThreadAbort ends the loop)',
+             'WriterNew': 'ShmWriter::new with is_usable_segment, wipe, mmap_segment_at inlined, for every prior file state: the state-changing file operations, in order and with values (the five header writes, the zero fill, sync_all, the set_len branch, the final version store) = Crash.script',
+             'Threads': 'thread_manager::run (the main thread: channel web, spawns, wait loop, broadcast_abort for every iteration order of the map, joins) = stepMain; Context::drop sends exactly one ThreadPanic/ThreadTerminate notice',
+             'Workers': 'the loops of chrony_poller::run / run_clock_error_bound_poller and shm_writer::run / process_messages leave exactly on ThreadAbort (return) or a failed send / failed ShmWriter::new / handler panic (panic), as stepPoller / stepWriter',
              'Errors': 'From<ShmError> for ClockBoundError / clockbound_err = ShmErr.toClient (kind, errno, detail), the enum tables, ClockBoundClient::now and clockbound_now are ONE function of (snapshot result, now result), new_with_path and clockbound_open are ShmReader::new + the conversion, clockbound_close drops the context'}
 for _p, _g in CODE_TIE.items():
     if _p in PROPS:
